@@ -31,6 +31,7 @@ THEOREMS = ['portText_showNat', 'parse_name', 'parse_name_port', 'parse_bare_v6'
             'ip_pref_partial', 'ip_order_lost', 'ip_order_lost_witness', 'ip_order_lost_dials_v4', 'family_single',
             'family_order', 'family_order_single', 'resolveOrder_perm', 'first_only',
             'label_spelled', 'label_matches', 'label_verbose_matches', 'label_json_matches', 'json_label_v6_not_reparsed',
+            'ipv6_no_brackets', 'label_matches_doc', 'spelled_ipv6',
             'named_target_dialled', 'port_range_target', 'port_range_option', 'port_range_worker', 'resolve_port_in_range',
             'file_targets_clean', 'file_targets_of_lines', 'targets_dialled']
 TECHNIQUE = ('Lean 4 theorems (induction over strings/lists, omega) about a hand-written model of target parsing, command-line handling, '
@@ -45,7 +46,7 @@ LEVEL_TEXT = ('Proved for all strings, ports and resolver answers about the Lean
 LEVEL_NOTE = ('Trusted: Lean kernel, the correspondence harness/generators/fakenet, the argv->argparse mapping, CPython built-ins (int, str.strip, re, readlines, ipaddress, sorted) '
               'which are modelled and differential-tested, not verified. Finding D33 (proved as ip_order_lost / ip_order_lost_dials_v4): -64 (any -6 written before -4) is recorded as '
               '[4, 6], so IPv4 is dialled first; ip_pref_partial covers every other flag combination. cmdline_port_default and file_targets_clean hold of the code after the D18/D19 repairs. '
-              'Label theorems for IPv6 hosts assume the host text has no brackets (true of every scope-free literal; a scope id may contain anything). Observation D30: JSON target of an IPv6 host is not re-parseable.')
+              'For IPv6 hosts with a scope id the label theorems assume the host text has no brackets (ipaddress accepts any scope text); scope-free literals need no assumption (ipv6_no_brackets). Observation D30: JSON target of an IPv6 host is not re-parseable.')
 
 AF4, AF6 = int(socket.AF_INET), int(socket.AF_INET6)
 ANSI = re.compile(r'\x1b\[[0-9;]*m')
@@ -226,8 +227,7 @@ def impl_order(flags, rows):
     import fakenet
     from ssh_audit.ssh_socket import SSH_Socket
     from ssh_audit.outputbuffer import OutputBuffer
-    r = impl_cmdline('h', None, flags, False, None)
-    pref = r['ok']['pref']
+    pref = [int(c) for c in flags]      # the ip_version_preference list itself (API level; the command line never produces [6, 4]: D33)
     net = fakenet.FakeNet({}, resolver=lambda host, port, family: [
         (af, st, 6, '', (ip, port) if af == AF4 else (ip, port, 0, 0)) for (_h, af, st, ip) in rows])
     with fakenet.patched(net):
@@ -553,6 +553,15 @@ def oracle_unit(kind, inp, fail):
         want = inp['targets']
         if 'ok' not in got or got['ok']['targets'] != want:
             fail('file_targets_wrong', {'level': 'file', **inp}, got.get('ok', got).get('targets', got) if 'ok' in got else got, want)
+    elif kind == 'order':
+        got = guard(lambda: impl_order(inp['pref'], inp['rows']))
+        rows = [r for r in inp['rows'] if r[2] == socket.SOCK_STREAM]
+        if len(inp['pref']) == 2:
+            first = AF4 if inp['pref'][0] == '4' else AF6
+            rows = [r for r in rows if r[1] == first] + [r for r in rows if r[1] != first]
+        want = {'ok': [[r[1], r[3]] for r in rows]}
+        if got != want:
+            fail('wrong_address_order', {'level': 'order', **inp}, got, want)
     elif kind == 'label':
         h, p = inp['host'], inp['port']
         got = guard(lambda: impl_labels(h, p))
@@ -743,6 +752,36 @@ def gen_run_case(r, invalid=False, hostile=False):
     return case, tags
 
 
+def grid_runs(r):
+    """boundary grid: every boundary port (valid and invalid) x host kind x {command line, targets file} x {in the target, as -p}"""
+    out = []
+    hosts = [('example.com', 'name'), ('192.0.2.7', 'ipv4'), ('2001:db8::7', 'ipv6'), ('2001:0db8:0000:0000:0000:0000:0000:0007', 'ipv6'), ('::ffff:192.0.2.7', 'ipv6')]
+    for p in [1, 21, 22, 23, 2222, 65535, 0, 65536, -1, 99999]:
+        for h, kind in hosts:
+            for mode in ('single', 'file'):
+                for where in ('target', 'option'):
+                    if p < 0 and kind == 'ipv6' and where == 'target':
+                        continue
+                    flags = r.choice(['', '4', '6', '46'])
+                    case = {'level': 'run', 'mode': mode, 'flags': flags, 'fstyle': 'cluster', 'pstyle': 'sep', 'out': r.choice(['text', 'json'])}
+                    if where == 'target':
+                        text, sp = spell(r, h, kind, p)
+                        case['oport'] = r.choice([None, 2222])
+                        case['truth'] = [[h, p]]
+                    else:
+                        text, sp = spell(r, h, kind, None)
+                        case['oport'] = p
+                        case['truth'] = [[h, None]]
+                    case['rows'] = gen_rows(r, [h])
+                    case['ups'] = uniq([row[3] for row in case['rows']])
+                    if mode == 'single':
+                        case['host_arg'] = text
+                    else:
+                        case['file_text'] = decorate_file(r, [text])
+                    out.append((case, ['grid', 'grid-port-%s' % ('valid' if port_ok(p) else 'invalid'), 'grid-' + where, 'mode-' + mode, sp]))
+    return out
+
+
 def hostile_hosts(t):
     """host strings a hostile spelling might resolve to (so that the resolver table has rows for them)"""
     from ssh_audit.utils import Utils
@@ -902,7 +941,8 @@ def build_unit_cases(ctx):
         rows = gen_rows(r, ['h'])
         if r.random() < 0.3:
             rows = rows + gen_rows(r, ['h'])
-        cases.append(('target.order', (r.choice(FLAG_CHOICES), rows), ['order'], None, None))
+        pref = r.choice(['', '4', '6', '46', '64', '46', '64'])
+        cases.append(('target.order', (pref, rows), ['order', 'pref-' + (pref or 'none')], 'order', {'pref': pref, 'rows': rows}))
     # labels
     for _ in range(ctx.scale(250, 5000)):
         h, kind = gen_host(r)
@@ -946,6 +986,7 @@ def run(ctx):
     d33 = {'level': 'run', 'mode': 'single', 'oport': None, 'flags': '64', 'fstyle': 'cluster', 'out': 'text', 'host_arg': 'dual.example',
            'rows': [['dual.example', AF4, 1, '10.0.0.4'], ['dual.example', AF6, 1, '2001:db8::6']], 'ups': ['10.0.0.4', '2001:db8::6'], 'truth': [['dual.example', None]]}
     runs.append((d33, ['corpus-D33']))
+    runs += grid_runs(r)
     n_runs = ctx.scale(1500, 30000)
     for i in range(n_runs):
         k = r.random()
@@ -992,7 +1033,7 @@ def replay(obj):
         print('connect calls (af, ip, port):', uniq(obs['connects']))
         print('labels:', labels_of(inp, obs['out']))
         oracle_run(inp, obs, fail)
-    elif level in ('parse', 'cmdline', 'file', 'label'):
+    elif level in ('parse', 'cmdline', 'file', 'label', 'order'):
         print('input:', json.dumps({k: v for k, v in inp.items() if k != 'level'})[:600])
         oracle_unit(level, inp, fail)
         for x in fs:
